@@ -28,9 +28,22 @@ def main():
         shutil.rmtree("/verif/evidence", ignore_errors=True)
         shutil.copytree(os.path.join(keep, "evidence"), "/verif/evidence")
         shutil.rmtree(keep, ignore_errors=True)
+    # the table always lists every seed: the latest recorded run of each (this invocation's or an earlier one's)
+    allrows = []
+    for name in sorted(d for d in os.listdir(SEEDED) if os.path.isdir(os.path.join(SEEDED, d))):
+        m = json.load(open(os.path.join(SEEDED, name, "meta.json")))
+        res = m.get("current_run")
+        if not res:
+            allrows.append((name, "not run yet", ""))
+            continue
+        allrows.append((name, ", ".join(m.get("caught_by_current", [])) or "MISSED",
+                        ", ".join("%s rc=%d (%ss)" % (c, r["rc"], r["wall_s"]) for c, r in res.items())))
+    for r in rows:
+        if r[1] == "patch does not apply any more":
+            allrows = [x if x[0] != r[0] else r for x in allrows]
     with open(os.path.join(SEEDED, "RESULTS.md"), "w") as f:
         f.write("# Seeded changes against the quick checks (written by tools/rerun_seeds.py)\n\n| seed | caught by | runs |\n|---|---|---|\n")
-        for r in rows:
+        for r in allrows:
             f.write("| %s | %s | %s |\n" % r)
     rc, out = run("git -C /repo status --porcelain")
     if out.strip():
